@@ -9,6 +9,8 @@ use crate::{
 
 use boa_macros::js_str;
 use boa_string::JsStrVariant;
+use num_bigint::BigUint;
+use num_traits::ToPrimitive;
 
 /// Builtin javascript 'isFinite(number)' function.
 ///
@@ -129,11 +131,13 @@ fn from_js_str_radix(src: JsStr<'_>, radix: u8) -> Option<f64> {
         }
         result as f64
     } else {
-        let mut result = 0f64;
-        for c in src {
-            result = result * f64::from(radix) + f64::from(to_digit(c, radix)?);
-        }
-        result
+        // Accumulating in a `f64` would round at every digit, so the exact integer is rounded once.
+        let digits = src
+            .map(|c| to_digit(c, radix))
+            .collect::<Option<Vec<_>>>()?;
+        BigUint::from_radix_be(&digits, u32::from(radix))?
+            .to_f64()
+            .unwrap_or(f64::INFINITY)
     };
 
     Some(result)
